@@ -100,6 +100,20 @@ def live_ids(cfg, astnode):
     return [n.id for n in cfg.nodes_of(astnode) if n.id in live]
 
 
+def underlying(rd, nid, e, depth=0):
+    """The expressions a local name stands for at node *nid*: plain assignments are followed (every reaching
+    definition), anything else is returned as it is.  Makes a rule independent of how locals are called."""
+    if depth > 6 or not isinstance(e, ast.Name):
+        return [e]
+    ds = rd.at(nid, e.id)
+    if not ds or any(d.kind != "assign" or d.index or d.value is None for d in ds):
+        return [e]
+    out = []
+    for d in ds:
+        out.extend(underlying(rd, d.node, d.value, depth + 1))
+    return out
+
+
 def guard_atoms(cfg, nid):
     """[(expr, polarity)] that hold on every path to nid (decomposed)."""
     return [(t, p) for t, p in cfg.guards(nid) if isinstance(t, ast.expr)]
@@ -894,6 +908,30 @@ def gather_model(repo: Repo):
     fn = g.func("CompilerPassGatherCode.run")
     out = []
     _MAIN_NAMES.clear()
+    _KEY_NAMES.clear()
+    # the loop variables that hold a key of the table of functions ('' is the main region): "if not key" asks for the main region
+    for lp in ast.walk(fn):
+        gens = [(lp.target, lp.iter)] if isinstance(lp, ast.For) else [(g_.target, g_.iter) for g_ in getattr(lp, "generators", [])] if isinstance(
+            lp, (ast.ListComp, ast.SetComp, ast.GeneratorExp, ast.DictComp)) else []
+        for tg, it in gens:
+            txt = norm(it)
+            if "functions" not in txt:
+                continue
+            if ".items()" in txt and isinstance(tg, ast.Tuple) and len(tg.elts) == 2 and isinstance(tg.elts[0], ast.Name):
+                _KEY_NAMES.add(tg.elts[0].id)
+            elif ".items()" not in txt and ".values()" not in txt and isinstance(tg, ast.Name):
+                _KEY_NAMES.add(tg.id)
+    # every binding of such a name is a loop / comprehension target (alone or first of a pair): it is never given another kind of value
+    loop_targets = set()
+    for lp in ast.walk(fn):
+        tgs = [lp.target] if isinstance(lp, ast.For) else [g_.target for g_ in getattr(lp, "generators", [])] if isinstance(
+            lp, (ast.ListComp, ast.SetComp, ast.GeneratorExp, ast.DictComp)) else []
+        for tg in tgs:
+            first = tg.elts[0] if isinstance(tg, ast.Tuple) and tg.elts else tg
+            if isinstance(first, ast.Name):
+                loop_targets.add(id(first))
+    _KEY_NAMES.difference_update({n for n in _KEY_NAMES if any(isinstance(x, ast.Name) and isinstance(x.ctx, ast.Store) and x.id == n and id(x) not in loop_targets
+                                                             for x in ast.walk(fn))})
     for st in ast.walk(fn):
         if isinstance(st, ast.Assign):
             names = [t.id for t in st.targets if isinstance(t, ast.Name)]
@@ -970,6 +1008,7 @@ def _expand_sources(pending, conds, depth=0):
 
 
 _MAIN_NAMES = set()
+_KEY_NAMES = set()
 
 
 def _is_main_entry(e):
@@ -1005,6 +1044,8 @@ def _finish_emission(st, conds, sources, s2, forced_region):
 
 def _main_atom(e):
     """key == ''  /  <f>.node is None   ->  +1;  the negated spellings -> -1; else 0"""
+    if isinstance(e, ast.Name) and e.id in _KEY_NAMES:
+        return -1       # a key that is true, i.e. not '': not the main region
     if isinstance(e, ast.Compare) and len(e.ops) == 1:
         l, r = e.left, e.comparators[0]
         if any(isinstance(x, ast.Constant) and x.value == "" for x in (l, r)) and isinstance(e.ops[0], (ast.Eq, ast.NotEq)):
@@ -1137,3 +1178,27 @@ def rule_stack_balance(repo: Repo, chk: Check, rule: str, modules=("generate_cod
                           f"sees this construct instead of its own", {"stack": stack}, f"{m.path}:{c.lineno} in {q}")
     if n == 0:
         chk.ok(rule, "package:no pass-level stack is pushed in a handler", None, vacuous=True)
+
+
+def register_roles(ra_mod):
+    """The locals of the register allocator by what they do, not by what they are called:
+       mapping    assign_registers: the table that gets  T[<symbol>.code_expr] = f"r{n}"
+       free pool  assign_colors:    the list a colour is taken from with  <sym>._color = F.pop()
+       active     assign_colors:    the list that receives  (<end>, <sym>._color)"""
+    roles = {}
+    af = ra_mod.func("assign_registers")
+    for st in ast.walk(af):
+        if isinstance(st, ast.Assign) and isinstance(st.value, ast.JoinedStr) and st.value.values and isinstance(st.value.values[0], ast.Constant) \
+                and st.value.values[0].value == "r":
+            for t in st.targets:
+                if isinstance(t, ast.Subscript) and isinstance(t.value, ast.Name):
+                    roles.setdefault("mapping", t.value.id)
+    ac = ra_mod.func("assign_colors")
+    for st in ast.walk(ac):
+        if isinstance(st, ast.Assign) and any(isinstance(t, ast.Attribute) and t.attr == "_color" for t in st.targets) and isinstance(st.value, ast.Call) \
+                and isinstance(st.value.func, ast.Attribute) and st.value.func.attr == "pop" and isinstance(st.value.func.value, ast.Name):
+            roles.setdefault("free", st.value.func.value.id)
+        if isinstance(st, ast.Call) and isinstance(st.func, ast.Attribute) and st.func.attr == "append" and isinstance(st.func.value, ast.Name) and st.args \
+                and isinstance(st.args[0], ast.Tuple) and len(st.args[0].elts) == 2 and norm(st.args[0].elts[1]).endswith("._color"):
+            roles.setdefault("active", st.func.value.id)
+    return roles
